@@ -1,0 +1,34 @@
+//go:build verif
+
+// Contracts for package head, checked by /verif/engine (gvc).  This file
+// contains comments only; it is compiled only with the "verif" build tag.
+package head
+
+// "head" table layout (OpenType): version(0) fontRevision(4) checksumAdj(8)
+// magic(12) flags(16) unitsPerEm(18) created(20) modified(28) xMin(36) yMin(38)
+// xMax(40) yMax(42) macStyle(44) lowestRecPPEM(46) fontDirectionHint(48)
+// indexToLocFormat(50) glyphDataFormat(52); 54 bytes.
+//@ assume func decodeTime(t int64) (res time.Time)
+//@   modifies nothing
+//@ assume func encodeTime(t time.Time) (res int64)
+//@   modifies nothing
+
+//@ func Read(r io.Reader) (info *Info, err error)   props: C12 C02 C18 C01
+//@   requires r != nil
+//@   let b = old(rpos(r)); d = file(r)
+//@   ensures faults(r) > old(faults(r)) ==> err != nil
+//@   ensures err == nil ==> info != nil && fresh(info) && be32(d, b) == 65536 && be32(d, b + 12) == 1594834165
+//@   ensures err == nil ==> info.FontRevision == be32(d, b + 4) && info.UnitsPerEm == be16(d, b + 18) && info.LowestRecPPEM == be16(d, b + 46) && info.LocaFormat == int16(be16(d, b + 50))
+//@   ensures err == nil ==> info.FontBBox.LLx == int16(be16(d, b + 36)) && info.FontBBox.LLy == int16(be16(d, b + 38)) && info.FontBBox.URx == int16(be16(d, b + 40)) && info.FontBBox.URy == int16(be16(d, b + 42))
+//@   ensures err == nil ==> info.HasYBaseAt0 == (be16(d, b + 16)&1 != 0) && info.HasXBaseAt0 == (be16(d, b + 16)&2 != 0) && info.IsNonlinear == (be16(d, b + 16)&4 != 0 || be16(d, b + 16)&16 != 0)
+//@   ensures err == nil ==> info.IsBold == (be16(d, b + 44)&1 != 0) && info.IsItalic == (be16(d, b + 44)&2 != 0) && info.HasShadow == (be16(d, b + 44)&16 != 0) && info.IsCondensed == (be16(d, b + 44)&32 != 0) && info.IsExtended == (be16(d, b + 44)&64 != 0)
+//@   modifies rpos(r), faults(r)
+
+//@ func (info *Info) Encode() (res []byte)   props: C12 C01 C16
+//@   requires info != nil
+//@   ensures fresh(res) && len(res) == 54 && be32(res, 0) == 65536 && be32(res, 8) == 0 && be32(res, 12) == 1594834165
+//@   ensures be32(res, 4) == info.FontRevision && be16(res, 18) == info.UnitsPerEm && be16(res, 46) == info.LowestRecPPEM && int16(be16(res, 50)) == info.LocaFormat
+//@   ensures int16(be16(res, 36)) == info.FontBBox.LLx && int16(be16(res, 38)) == info.FontBBox.LLy && int16(be16(res, 40)) == info.FontBBox.URx && int16(be16(res, 42)) == info.FontBBox.URy
+//@   ensures (be16(res, 16)&1 != 0) == info.HasYBaseAt0 && (be16(res, 16)&2 != 0) == info.HasXBaseAt0 && (be16(res, 16)&4 != 0) == info.IsNonlinear && (be16(res, 16)&16 != 0) == info.IsNonlinear
+//@   ensures (be16(res, 44)&1 != 0) == info.IsBold && (be16(res, 44)&2 != 0) == info.IsItalic && (be16(res, 44)&16 != 0) == info.HasShadow && (be16(res, 44)&32 != 0) == info.IsCondensed && (be16(res, 44)&64 != 0) == info.IsExtended
+//@   modifies nothing
